@@ -36,6 +36,17 @@ Definition conn_open (id : N) (s : mux_st) : bool :=
 Definition ok_writes (tr : list (event * result)) : list write :=
   flat_map (fun eo => match eo with (EvWrite id buf _, ROk) => [(id, buf)] | _ => [] end) tr.
 
+(* a Read call, with the default or an explicit buffer *)
+Definition is_read (e : event) : bool :=
+  match e with EvRead _ _ | EvReadB _ _ _ _ => true | _ => false end.
+
+(* every explicit read buffer is a Go slice: its length does not exceed its capacity *)
+Definition bufs_ok (evs : list event) : bool :=
+  forallb (fun e => match e with EvReadB _ _ bl bc => bl <=? bc | _ => true end) evs.
+(* no Read of the trace was handed a buffer shorter than the frame it took *)
+Definition no_enomem (tr : list (event * result)) : bool :=
+  forallb (fun eo => match snd eo with RBuf _ RONoMem => false | _ => true end) tr.
+
 Fixpoint only_closes (evs : list event) : bool :=
   match evs with [] => true | EvClose :: r => only_closes r | _ :: _ => false end.
 
